@@ -93,6 +93,7 @@ def run(chk):
               check_pair(chk, fn, p, F, fptr, last, state, inst_id)
     chk.expect("Q1", "(last_state, state) pairs", n_pairs, 16)
     check_q3(chk, fields)
+    check_q4(chk, m, F)
 
 
 def check_pair(chk, fn, p, F, fptr, last, state, inst_id):
@@ -170,3 +171,64 @@ def check_q3(chk, fields):
             r = strip_casts(p.ret) if p.ret else None
             ok = r is not None and r[0] == "ld" and r[1] == paths.mkptr(("arg", 0), Fw["count"][0])
             chk.ob("Q3.count", "rotenc_count", ok, "returns r->count (got %s)" % fmt(p.ret)[:50], fc.loc, fc.name)
+
+
+def check_q4(chk, m, F):
+    """rotenc_count14: two necessary conditions of 'the same latched position modulo 2^14', decided for ALL field values
+    in the BDD bit-vector domain: (a) its low 8 bits are the latched count; (b) whenever the live counter agrees with the
+    latched count (the encoder rests where it was latched) the reading is (internal_count >> 2) mod 2^14."""
+    from ..domains.bdd import BDD, BV
+    from ..domains.bvexec import expr_bv, Top
+    if not m.has_fn("rotenc_count14"):
+        chk.unknown("Q4.count14", "rotenc_count14", "anchor vanished")
+        return
+    fn = m.functions["rotenc_count14"]
+    chk.note_fn(fn)
+    ps = paths.enumerate_paths(fn, m)
+    bdd = BDD()
+    bv = BV(bdd)
+    ic = bv.inputs(0, 16)
+    cnt = bv.inputs(16, 8)
+
+    def atom(e):
+        if e[0] == "ld" and e[1] == paths.mkptr(("arg", 0), F["internal_count"][0]):
+            return ic
+        if e[0] == "ld" and e[1] == paths.mkptr(("arg", 0), F["count"][0]):
+            return cnt
+        return None
+    res, defined = None, 0
+    try:
+        for p in ps:
+            pc = 1
+            for c, taken, inst in p.conds:
+                cb = expr_bv(c, bv, atom)[0]
+                pc = bdd.AND(pc, cb if taken else bdd.NOT(cb))
+            r = bv.trunc(expr_bv(p.ret, bv, atom), 16)
+            res = r if res is None else bv.mux(pc, r, res)
+    except Top as t:
+        chk.unknown("Q4.count14", "rotenc_count14", "outside the bit-vector fragment: %s" % t, fn.loc)
+        return
+    pos = bv.lshr(ic, 2)
+    # (a) low byte
+    diff = 0
+    for k in range(8):
+        diff = bdd.OR(diff, bdd.XOR(res[k], cnt[k]))
+    wit = bdd.sat_one(diff) if diff else None
+
+    def val(assign, base, n):
+        return sum((1 << k) for k in range(n) if assign.get(base + k))
+    chk.ob("Q4.count14-low-byte", "rotenc_count14", diff == 0,
+           "the low 8 bits of rotenc_count14 are the latched count for all 2^24 field values" +
+           ("" if diff == 0 else "; e.g. internal_count=%d count=%d" % (val(wit, 0, 16), val(wit, 16, 8))), fn.loc, fn.name)
+    # (b) at rest: count == (ic >> 2) & 0xff  ==>  result == (ic >> 2) & 0x3fff
+    care = bv.eq(cnt, pos[:8])
+    want = bv.AND(pos, bv.const(0x3fff, 16))
+    d2 = 0
+    for k in range(16):
+        d2 = bdd.OR(d2, bdd.XOR(res[k], want[k]))
+    d2 = bdd.AND(d2, care)
+    wit = bdd.sat_one(d2) if d2 else None
+    chk.ob("Q4.count14-at-rest", "rotenc_count14", d2 == 0,
+           "whenever the live position agrees with the latched count, rotenc_count14 == (internal_count >> 2) mod 2^14 "
+           "(all 2^16 counter values)" + ("" if d2 == 0 else "; fails e.g. at internal_count=%d (latched count %d)" %
+                                          (val(wit, 0, 16), val(wit, 16, 8))), fn.loc, fn.name)
